@@ -182,7 +182,7 @@ func TestC19(t *testing.T) {
 
 		c.Sub("input-matrix", func(s *Sub) {
 			var k int64
-			texts := []string{"alpha", "  padded  ", "\tTab\t", "", "১২", "two words", "x"}
+			texts := []string{"alpha", "  padded  ", "\tTab\t", "", "১২", "two words", "  ", "x", " \t "}
 			for calls := 0; calls <= 4; calls++ {
 				for nLines := calls; nLines <= 4; nLines++ {
 					for _, finalNL := range []bool{true, false} {
@@ -212,8 +212,8 @@ func TestC19(t *testing.T) {
 								}
 							}
 							stdin := in.String()
-							if nLines > 0 && !finalNL && strings.TrimSpace(texts[(nLines-1+variant+int(k))%len(texts)]) == "" && calls == nLines {
-								continue // an empty unterminated last line is indistinguishable from end of input
+							if nLines > 0 && !finalNL && texts[(nLines-1+variant+int(k))%len(texts)] == "" && calls == nLines {
+								continue // an empty unterminated last line is no line at all (end of input)
 							}
 							c.c19Script(s, "input-matrix", src.String(), stdin, fmt.Sprintf("input-calls-%d", calls))
 						}
